@@ -887,3 +887,227 @@ Section Corollaries.
       apply in_included_of in Hi. destruct Hi as [Hm Hn]. exact (proj1 (proj1 (H i Hm) Hn)).
   Qed.
 End Corollaries.
+
+(* ------------------------------------------------------------------ *)
+(* selection histories on one loop object                              *)
+(* ------------------------------------------------------------------ *)
+
+Section HistoryProofs.
+  Variable rngT : Type.
+  Variable mkrng : Z -> rngT.
+  Variable shuffle : forall A : Type, rngT -> list A -> list A.
+
+  Lemma pure_sel_same_wallet (l l' : loop) (s : hstep) :
+    same_wallet l l' -> pure_sel rngT mkrng shuffle l s = pure_sel rngT mkrng shuffle l' s.
+  Proof.
+    intros [Hk [Ho [Hc Hs]]]. destruct s as [[iter att] ready]. unfold pure_sel.
+    rewrite Hk, Ho, Hc, Hs. reflexivity.
+  Qed.
+
+  Lemma attempt_step_spec (l : loop) (s : hstep) :
+    same_wallet (fst (attempt_step rngT mkrng shuffle l s)) l /\
+    snd (attempt_step rngT mkrng shuffle l s) = pure_sel rngT mkrng shuffle l s.
+  Proof.
+    destruct s as [[iter att] ready]. cbn. repeat split; reflexivity.
+  Qed.
+
+  (* history independence: the constructor's fields survive any history and the answers are the
+     pure selection mapped over the steps *)
+  Theorem run_history_is_map (l : loop) (h : list hstep) :
+    same_wallet (fst (run_history rngT mkrng shuffle l h)) l /\
+    snd (run_history rngT mkrng shuffle l h) = map (pure_sel rngT mkrng shuffle l) h.
+  Proof.
+    revert l. induction h as [|s t IH]; intro l.
+    - cbn. repeat split; reflexivity.
+    - cbn [run_history map].
+      destruct (attempt_step_spec l s) as [W E].
+      destruct (attempt_step rngT mkrng shuffle l s) as [l1 o] eqn:EA. cbn [fst snd] in W, E.
+      destruct (IH l1) as [W1 E1].
+      destruct (run_history rngT mkrng shuffle l1 t) as [l2 rest]. cbn [fst snd] in *.
+      split.
+      + destruct W as [A1 [A2 [A3 A4]]], W1 as [B1 [B2 [B3 B4]]].
+        repeat split; congruence.
+      + rewrite E, E1. f_equal. apply map_ext. intro s'. apply pure_sel_same_wallet. exact W.
+  Qed.
+
+  (* a member that skipped the first attempts (fresh object, suffix of the history) answers
+     like the member that went through all of them *)
+  Theorem late_member_agrees (l l' : loop) (pre h : list hstep) :
+    same_wallet l l' ->
+    snd (run_history rngT mkrng shuffle l (pre ++ h)) =
+    snd (run_history rngT mkrng shuffle l pre) ++ snd (run_history rngT mkrng shuffle l' h).
+  Proof.
+    intro W. rewrite !(proj2 (run_history_is_map _ _)), map_app. f_equal.
+    apply map_ext. intro s. apply pure_sel_same_wallet. exact W.
+  Qed.
+
+  (* two members of the wallet, each with its OWN history on its own loop object: wherever
+     they select for the same attempt number on the same ready SET (reported in any order, any
+     map-iteration order), they derive the same lists *)
+  Theorem members_agree_whatever_their_histories (l l' : loop) (h h' : list hstep)
+          (i j : nat) (iter iter' : list N -> list N) (att : N) (ready ready' : list N) :
+    same_wallet l l' ->
+    (forall x, Permutation (iter x) x) -> (forall x, Permutation (iter' x) x) ->
+    nth_error h i = Some (iter, att, ready) ->
+    nth_error h' j = Some (iter', att, ready') ->
+    Permutation ready ready' ->
+    exists o,
+      nth_error (snd (run_history rngT mkrng shuffle l h)) i = Some o /\
+      nth_error (snd (run_history rngT mkrng shuffle l' h')) j = Some o.
+  Proof.
+    intros W Hi Hi' E E' P.
+    rewrite !(proj2 (run_history_is_map _ _)).
+    exists (pure_sel rngT mkrng shuffle l (iter, att, ready)). split.
+    - apply map_nth_error. exact E.
+    - rewrite (map_nth_error _ _ _ E'). f_equal.
+      rewrite (pure_sel_same_wallet l l' _ W). unfold pure_sel, select_of.
+      destruct (order_invariant rngT mkrng shuffle iter' iter Hi' Hi (l_ops l') (l_count l')
+                  (l_seed l') att ready' ready (Permutation_sym P)) as [HS HD].
+      destruct (l_kind l'); assumption.
+  Qed.
+End HistoryProofs.
+
+(* ---- the executable history property ---- *)
+
+Lemma nth_error_map_inv {A B} (f : A -> B) (l : list A) : forall (j : nat) (y : B),
+  nth_error (map f l) j = Some y -> exists x, nth_error l j = Some x /\ f x = y.
+Proof.
+  induction l as [|a t IH]; intros [|j] y H; cbn in H; try discriminate H.
+  - inversion H. exists a. split; reflexivity.
+  - apply IH. exact H.
+Qed.
+
+Lemma nth_error_combine_inv {A B} (a : list A) : forall (b : list B) (j : nat) (x : A) (y : B),
+  nth_error (combine a b) j = Some (x, y) -> nth_error a j = Some x /\ nth_error b j = Some y.
+Proof.
+  induction a as [|a0 ta IH]; intros [|b0 tb] [|j] x y H; cbn in H; try discriminate H.
+  - inversion H. split; reflexivity.
+  - cbn [nth_error]. apply IH. exact H.
+Qed.
+
+
+Lemma sel_eqb_eq (a b : sel) : sel_eqb a b = true -> a = b.
+Proof.
+  destruct a, b; cbn [sel_eqb]; try discriminate; try reflexivity.
+  intro H. apply list_eqb_eq in H. congruence.
+Qed.
+
+Lemma sel_eqb_refl (a : sel) : sel_eqb a a = true.
+Proof. destruct a; cbn [sel_eqb]; try reflexivity. apply list_eqb_eq. reflexivity. Qed.
+
+Lemma In_numbered_gen {A} (l : list A) : forall (k j : nat) (x : A),
+  In (j, x) (combine (seq k (length l)) l) <-> (k <= j)%nat /\ nth_error l (j - k) = Some x.
+Proof.
+  induction l as [|y t IH]; intros k j x; cbn [length seq combine In].
+  - split; [intros []|]. intros [_ H]. destruct (j - k)%nat; discriminate H.
+  - rewrite IH. split.
+    + intros [H|[H1 H2]].
+      * inversion H; subst. split; [lia|]. rewrite Nat.sub_diag. reflexivity.
+      * split; [lia|]. replace (j - k)%nat with (S (j - S k)) by lia. exact H2.
+    + intros [H1 H2]. destruct (Nat.eq_dec j k) as [->|Hne].
+      * left. rewrite Nat.sub_diag in H2. cbn in H2. congruence.
+      * right. split; [lia|]. replace (j - k)%nat with (S (j - S k)) in H2 by lia. exact H2.
+Qed.
+
+Lemma In_numbered {A} (l : list A) (j : nat) (x : A) :
+  In (j, x) (numbered l) <-> nth_error l j = Some x.
+Proof.
+  unfold numbered. rewrite In_numbered_gen, Nat.sub_0_r. split; [intros [_ H]; exact H|].
+  intro H. split; [lia|exact H].
+Qed.
+
+(* hspec_ok says: at EVERY step whose ready list is a set of group members, all the members
+   present — whatever they went through before — returned one and the same outcome, and it
+   satisfies the per-output property for the ready set of THAT step *)
+Theorem hspec_ok_sound :
+  forall h, hspec_ok h = true ->
+  forall j s, nth_error (h_steps h) j = Some s -> ready_wf (h_ops h) (hs_ready s) = true ->
+    exists o, In o (outs_at (h_members h) j) /\
+              (forall o', In o' (outs_at (h_members h) j) -> o' = o) /\
+              spec_out (step_case h s) o = true.
+Proof.
+  intros h H j s Hn Hwf. unfold hspec_ok in H. rewrite forallb_forall in H.
+  specialize (H (j, s) (proj2 (In_numbered _ _ _) Hn)). unfold hspec_step in H.
+  cbn [fst snd] in H. rewrite Hwf in H.
+  destruct (outs_at (h_members h) j) as [|o t]; [discriminate H|].
+  apply andb_true_iff in H. destruct H as [H1 H2]. exists o. split; [left; reflexivity|]. split.
+  - intros o' [<-|Hin]; [reflexivity|]. rewrite forallb_forall in H1. symmetry.
+    apply sel_eqb_eq, H1, Hin.
+  - exact H2.
+Qed.
+
+(* the outputs of the members of a model history at step j *)
+Lemma outs_at_model (outs : list sel) (ms : list (N * nat)) (j : nat) (o : sel) :
+  nth_error outs j = Some o ->
+  forall o', In o' (outs_at (map (fun m => {| hm_index := fst m; hm_skip := snd m;
+                                              hm_outs := skipn (snd m) outs |}) ms) j) -> o' = o.
+Proof.
+  intros Hn o' Hin. unfold outs_at in Hin. apply in_flat_map in Hin.
+  destruct Hin as [m [Hm Hin]]. apply in_map_iff in Hm. destruct Hm as [[ix sk] [<- _]].
+  cbn [hm_skip hm_outs fst snd] in Hin.
+  destruct (Nat.leb_spec sk j) as [Hle|Hgt]; [|destruct Hin].
+  assert (E : nth_error (skipn sk outs) (j - sk) = nth_error outs j).
+  { rewrite <- (firstn_skipn sk outs) at 2.
+    assert (Hl : (sk <= length outs)%nat).
+    { assert (Hj : (j < length outs)%nat) by (apply nth_error_Some; congruence). lia. }
+    rewrite nth_error_app2; rewrite firstn_length_le by exact Hl; [reflexivity|exact Hle]. }
+  rewrite E, Hn in Hin. destruct Hin as [<-|[]]. reflexivity.
+Qed.
+
+Lemma outs_at_model_nonempty (outs : list sel) (ms : list (N * nat)) (j : nat) (o : sel) :
+  nth_error outs j = Some o ->
+  existsb (fun m => Nat.eqb (snd m) 0) ms = true ->
+  outs_at (map (fun m => {| hm_index := fst m; hm_skip := snd m;
+                            hm_outs := skipn (snd m) outs |}) ms) j <> [].
+Proof.
+  intros Hn He. apply existsb_exists in He. destruct He as [[ix sk] [Hin Hz]].
+  cbn [snd] in Hz. apply Nat.eqb_eq in Hz. subst sk.
+  intro E. assert (Hi : In o (outs_at (map (fun m => {| hm_index := fst m; hm_skip := snd m;
+                            hm_outs := skipn (snd m) outs |}) ms) j)).
+  { unfold outs_at. apply in_flat_map. exists {| hm_index := ix; hm_skip := 0; hm_outs := outs |}.
+    split.
+    - apply in_map_iff. exists (ix, 0%nat). split; [reflexivity|exact Hin].
+    - cbn [hm_skip hm_outs]. cbn [Nat.leb]. rewrite Nat.sub_0_r, Hn. left. reflexivity. }
+  rewrite E in Hi. destruct Hi.
+Qed.
+
+(* ... and it holds of every history the concrete model produces, for any members joining at
+   any steps (at least one of them there from the start) *)
+Theorem model_histories_pass_spec :
+  forall k ops count seed steps ms,
+    existsb (fun m => Nat.eqb (snd m) 0) ms = true ->
+    hspec_ok (C10.Concrete.model_hcase k ops count seed steps ms) = true.
+Proof.
+  intros k ops count seed steps ms He. unfold hspec_ok. rewrite forallb_forall.
+  intros [j s] Hin. apply In_numbered in Hin.
+  unfold C10.Concrete.model_hcase in *. cbn [h_steps h_members h_ops] in *.
+  set (h0 := {| h_kind := k; h_ops := ops; h_count := count; h_seed := seed;
+                h_steps := map (fun ar => {| hs_att := fst ar; hs_ready := snd ar; hs_qual := [] |}) steps;
+                h_members := [] |}) in *.
+  set (ms0 := C10.Concrete.hmodel h0) in *.
+  apply nth_error_map_inv in Hin. destruct Hin as [[[att ready] m] [Hc <-]].
+  cbn [fst snd] in *.
+  unfold hspec_step. cbn [fst snd hs_ready h_ops h_members].
+  destruct (ready_wf ops ready) eqn:Hwf; [|reflexivity].
+  (* the j-th model answer *)
+  assert (Hsteps : nth_error steps j = Some (att, ready) /\ nth_error ms0 j = Some m).
+  { apply nth_error_combine_inv. exact Hc. }
+  destruct Hsteps as [Hs Hm].
+  assert (Em : m = C10.Concrete.model
+                     {| c_kind := k; c_ops := ops; c_count := count; c_seed := seed; c_att := att;
+                        c_readys := [ready]; c_outs := []; c_qual := [] |} ready).
+  { subst ms0. unfold C10.Concrete.hmodel in Hm. subst h0. cbn [h_steps] in Hm.
+    rewrite map_map in Hm. rewrite (map_nth_error _ _ _ Hs) in Hm. cbn in Hm.
+    inversion Hm. reflexivity. }
+  assert (Ho : nth_error (map fst ms0) j = Some (fst m)) by (apply map_nth_error; exact Hm).
+  pose proof (outs_at_model (map fst ms0) ms j (fst m) Ho) as Hall.
+  pose proof (outs_at_model_nonempty (map fst ms0) ms j (fst m) Ho He) as Hne.
+  destruct (outs_at _ j) as [|o t]; [contradiction|].
+  assert (Eo : o = fst m) by (apply Hall; left; reflexivity). subst o.
+  apply andb_true_iff. split.
+  - apply forallb_forall. intros o' Hin'. rewrite (Hall o' (or_intror Hin')). apply sel_eqb_refl.
+  - pose proof (model_outputs_pass_spec k ops count seed att ready) as HM. cbv zeta in HM.
+    rewrite <- Em in HM.
+    destruct (spec_ok_sound _ HM Hwf) as [o [Eo Hso]]. cbn [c_outs] in Eo. inversion Eo; subst o.
+    exact Hso.
+Qed.
